@@ -60,6 +60,9 @@ def episodes(prop, tier, seed):
     out["rand"] = (gen_atomic.random_episodes(seed, 70 if q else 1500), "verif")
     out["rand-release"] = (gen_atomic.random_episodes(seed + 1, 20 if q else 500, full=True), "release")
     out["tlc-fullwidth-release"] = (_full_width(tier), "release")
+    # unscheduled threads (real races): instructions that no hook announces
+    out["free-release"] = (gen_atomic.free_episodes(seed + 2, 60 if q else 600, 600 if q else 3000, full=True), "release")
+    out["free"] = (gen_atomic.free_episodes(seed + 3, 30 if q else 300, 300 if q else 1500), "verif")
     return out
 
 
@@ -94,4 +97,8 @@ ASSUME = ["Atomic: memory is sequentially consistent per word (every step is one
           "coherent under any ordering); effects that need reordering between different words are outside the model",
           "Atomic: the scheduler serialises the worker threads at the sux_verif hook placed immediately before every "
           "atomic load / compare_exchange / fetch_or / fetch_and; get_atomic and the conversions are observed after join",
+          "Atomic: batches free*: the threads run unscheduled behind a spin barrier (hundreds of repetitions per "
+          "episode); each distinct outcome must satisfy what every interleaving of Atomic guarantees (NoInterference, "
+          "frame, a linearization of the calls on every bit); detection of a race there is probabilistic, acceptance of "
+          "correct code is not",
           "Atomic: field width = word size only under the release profile (debug_assert in the pinned tree)"]
